@@ -253,7 +253,7 @@ def make_cases(ctx, rng, cd, witnesses, gdict):
     # (2) the necessity witnesses first: the corpus
     for name, cls, site, b in witnesses:
         add("F", b, "witness:" + name, cap=4096)
-        for cap in (7, 40, rng.choice([0, 1, 3, 12, 1024, 1030, 1031])):      # near-end-of-buffer code paths (execSequenceEnd, split literals)
+        for cap in (7, 40, 140000, rng.choice([0, 1, 3, 12, 1024, 1030, 1031])):      # near-end-of-buffer code paths (execSequenceEnd, split literals)
             add("F", b, "witness:" + name, cap=cap)
     # (1) mostly valid: real frames + structure-aware mutations
     nvalid = 46 if quick else 260
